@@ -9,7 +9,7 @@ Model: YouVerif/C08/Model.lean (`step`, `run`).  `Safe c s ops` is the call disc
 -/
 import YouVerif.C08.ProofsProps
 import YouVerif.C08.ProofsHandlers
-import YouVerif.C08.ProofsLinks3
+import YouVerif.C08.ProofsLinks4
 
 namespace YouVerif.C08
 
@@ -90,18 +90,49 @@ theorem index_eq_dom_handlers (c : Cfg) (hu : 0 < c.unit) (ops : List Op) (hall 
 `LOk`/`LSafe` (ProofsLinks3.lean) is the link-level call discipline: delegations come from existing accounts; a penalty
 consumes no whole delegation (else F-C08f, `penalty_unlinks_counterexample`); at a flush no total reaches 2^64 LU. -/
 
-/-- `delegation_links_agree`: full statement over all handler-level histories, with the side conditions explicit.
-    NOT proved in full: the operations outside `Op.dlv` (dadd/dsub through the handlers, settle, penalise under the
-    side condition, stale update, IntermediateRoot, reload, Copy) are covered by the oracle (clause 4) only. The
-    machinery they need is proved: `updateDelegation_linv`, `Keep.update`, `Stable.*`, `revertTo_linv`. -/
-def delegation_links_agree_statement : Prop :=
-  ∀ (c : Cfg) (ops : List Op), 0 < c.unit → (∀ op ∈ ops, op.hl c = true) → LSafe c St.init ops →
-    Links (avOf (run c St.init ops)) (vdOf (run c St.init ops))
+/-- **Delegator accounts and validators agree on who delegates to whom**, for every handler-level history (all of
+    `Op.hl`: creations, updates, the stale update of the forced settlement, take-effect deposits / withdrawals / status
+    changes / delegations, settlements, penalties, snapshots and reverts to any live snapshot, Finalise,
+    IntermediateRoot with deletion of emptied validators, reload, Copy) that keeps the link-level discipline `LSafe`:
+    delegations come from existing accounts, no penalty consumes a whole delegation (F-C08f — without this the claim
+    is false: `penalty_unlinks_counterexample`), and no total reaches 2^64 LU at a flush. -/
+theorem delegation_links_agree (c : Cfg) (hu : 0 < c.unit) (ops : List Op) (hall : ∀ op ∈ ops, op.hl c = true)
+    (hs : LSafe c St.init ops) : Links (avOf (run c St.init ops)) (vdOf (run c St.init ops)) :=
+  (run_all c hu ops St.init Inv.init (SInv.init _) LInv.init hall hs).2.2.cur
 
-/-- **Links agree** for every history of creations, account creations, `UpdateDelegation` calls by existing accounts
-    (any amounts, including removals), field updates, deposits, withdrawals, status changes, snapshots, reverts to any
-    live snapshot, and Finalise. In particular: after a revert the two sides still agree, and every older snapshot can
-    still be restored to a state in which they agree. -/
+/-- the same in terms of the records: an account lists a visible validator iff that validator holds a delegation from it -/
+theorem delegation_links_agree_records (c : Cfg) (hu : 0 < c.unit) (ops : List Op) (hall : ∀ op ∈ ops, op.hl c = true)
+    (hs : LSafe c St.init ops) (d a : Addr) (x : Acct) (v : Val)
+    (hx : getAcct (run c St.init ops).accts d = some x) (hv : get (run c St.init ops).vals a = some v) :
+    a ∈ x.dlgs ↔ d ∈ v.dlgs.map (·.d) := by
+  have h := delegation_links_agree c hu ops hall hs d a
+  have e1 : avOf (run c St.init ops) d = some x.dlgs := by simp [avOf, hx]
+  have e2 : vdOf (run c St.init ops) a = some (v.dlgs.map (·.d)) := by simp [vdOf, hv, dl]
+  rw [e1, e2] at h
+  simpa using h
+
+/-- no account lists a validator that does not exist; no validator holds a delegation from a missing account -/
+theorem delegation_links_no_dangling (c : Cfg) (hu : 0 < c.unit) (ops : List Op) (hall : ∀ op ∈ ops, op.hl c = true)
+    (hs : LSafe c St.init ops) (d a : Addr) :
+    (∀ x, getAcct (run c St.init ops).accts d = some x → a ∈ x.dlgs → (get (run c St.init ops).vals a).isSome) ∧
+    (∀ v, get (run c St.init ops).vals a = some v → d ∈ v.dlgs.map (·.d) → (getAcct (run c St.init ops).accts d).isSome) := by
+  have h := delegation_links_agree c hu ops hall hs d a
+  constructor
+  · intro x hx ha
+    obtain ⟨l, hl, _⟩ := h.mp ⟨x.dlgs, by simp [avOf, hx], ha⟩
+    unfold vdOf at hl
+    cases hg : get (run c St.init ops).vals a with
+    | none => rw [hg] at hl; cases hl
+    | some v => rfl
+  · intro v hv hd
+    obtain ⟨l, hl, _⟩ := h.mpr ⟨v.dlgs.map (·.d), by simp [vdOf, hv, dl], hd⟩
+    unfold avOf at hl
+    cases hg : getAcct (run c St.init ops).accts d with
+    | none => rw [hg] at hl; cases hl
+    | some x => rfl
+
+/-- The raw-API variant (no `Op.hl` needed): creations, account creations, `UpdateDelegation` calls by existing accounts with
+    ANY amounts, field updates, deposits, withdrawals, status changes, snapshots, reverts to any live snapshot, Finalise. -/
 theorem delegation_links_agree_partial (c : Cfg) (ops : List Op) (hall : ∀ op ∈ ops, op.dlv = true)
     (hs : LSafe c St.init ops) : Links (avOf (run c St.init ops)) (vdOf (run c St.init ops)) :=
   (run_linv_dlv c ops St.init LInv.init hall hs).cur
@@ -139,6 +170,16 @@ theorem remove_then_flush_double_decrement :
                              .remove 1, .iroot true]
     s.stats.kAll.onStake = 2 ∧ (summarize (listed s)).kAll.onStake = 7 := by
   decide
+
+/-- non-vacuity of `Op.hl` + `LSafe`: handler delegations, a forced-offline delegation withdrawal, a 2 % penalty, nested
+    snapshots and reverts, an emptied validator deleted at the flush, Copy and reload -/
+example : let c : Cfg := { minStake := fun _ => 5 }
+    let ops : List Op := [.create 1 1 1 5000000000000000000 5 1 0 2500, .create 2 3 0 3000000000000000000 3 1 500 0,
+      .mkacct 1, .mkacct 2, .snap, .dadd 1 1 2000000000000000000, .snap, .dadd 2 1 1000000000000000000,
+      .dsub 1 1 2000000000000000000 1, .penal 1 120000000000000000, .revert 1, .withdraw 2 3000000000000000000 1 2,
+      .iroot true, .copy, .dadd 2 1 1000000000000000000, .reload true, .settle 1]
+    (∀ op ∈ ops, op.hl c = true) ∧ LSafe c St.init ops :=
+  ⟨by decide, lSafeB_sound _ _ _ (by decide)⟩
 
 /-- non-vacuity of `LSafe` + `Op.dlv`: delegations, a removal, nested snapshots and reverts -/
 example : (∀ op ∈ ([.create 1 1 1 5000000000000000000 5 1 0 0, .mkacct 1, .mkacct 2, .snap, .deleg 1 1 2000000000000000000,
